@@ -18,6 +18,7 @@ def extra(work, v, thorough):
             "_states": mc.distinct, "_trans": mc.generated, "_traces": res["traces"]}
 
 PLAN = {
+    "api": True,
     "mc": [("StoreMC_acct.cfg", False)],
     "sims": [("StoreSim_acct.cfg", 120, 800, 61)],
     "drivers": [("TestVerif_StoreFree", 10, 60, "store_free.ndjson", None), ("TestVerif_StoreClose", 20, 150, "store_close.ndjson", None)],
